@@ -49,6 +49,9 @@ Definition qappend (s : sink) (r : rec) : sink :=
   {| sid := sid s; presize := presize s; broken := broken s; disk := disk s; buf := buf s ++ [r] |}.
 (* the buffering policy: looking at the sink and the record, flush before appending? after? *)
 Definition policy := sink -> rec -> bool * bool.
+(* transient device faults: does the device of sink number i reject the write of record r?  A rejected
+   record is lost (QIODevice::write returns -1); nothing else happens to the sink. *)
+Definition reject := N -> rec -> bool.
 
 (* what tools/s2c/fatal.py reads from the source *)
 Inductive fpos := FNone | FBefore | FAfter.         (* flush() relative to process(lmsg) *)
@@ -71,8 +74,9 @@ Definition cond_holds_sync (c : fcond) : bool :=
 Definition sink_flush (cfg : fatal_cfg) (s : sink) : sink :=
   if fs_flush_real cfg then qflush s else s.
 (* IODeviceSink::send on a (Rotating)FileSink *)
-Definition write (cfg : fatal_cfg) (pol : policy) (s : sink) (m : msg) : sink :=
+Definition write (cfg : fatal_cfg) (pol : policy) (rej : reject) (s : sink) (m : msg) : sink :=
   let r := snd m in
+  if rej (sid s) r then s else
   let s1 := if rot_presize cfg && presize s then qflush s else s in
   let (pre, post) := pol s1 r in
   let s2 := if pre then qflush s1 else s1 in
@@ -82,17 +86,18 @@ Definition write (cfg : fatal_cfg) (pol : policy) (s : sink) (m : msg) : sink :=
 
 (* the handler tree: file sinks, nested pipelines, filters, anything else that lets the message
    pass (formatters, attribute handlers, non-file sinks) *)
-Inductive tree := TSink (s : sink) | TPipe (l : list tree) | TFilter (f : flt) | TOther.
+Inductive tree := TSink (s : sink) | TPipe (l : list tree) | TFilter (f : flt) | TOther
+                | TNull.   (* a null HandlerPtr entry (append(initializer_list), Pipeline({..})): skipped by process and by flush *)
 (* Pipeline::process: is the loop still running after this handler? *)
 Definition lnext (m : msg) (live : bool) (t : tree) : bool :=
   match t with TFilter f => live && f m | _ => live end.
-Fixpoint twrite (cfg : fatal_cfg) (pol : policy) (m : msg) (live : bool) (t : tree) : tree :=
+Fixpoint twrite (cfg : fatal_cfg) (pol : policy) (rej : reject) (m : msg) (live : bool) (t : tree) : tree :=
   match t with
-  | TSink s => TSink (if live then write cfg pol s m else s)
+  | TSink s => TSink (if live then write cfg pol rej s m else s)
   | TPipe l => TPipe ((fix lw (l : list tree) (lv : bool) : list tree :=
                          match l with
                          | [] => []
-                         | x :: r => twrite cfg pol m lv x :: lw r (lnext m lv x)
+                         | x :: r => twrite cfg pol rej m lv x :: lw r (lnext m lv x)
                          end) l live)
   | _ => t
   end.
@@ -110,17 +115,17 @@ Definition root_flush (cfg : fatal_cfg) (t : tree) : tree :=
 (* Logger::processMessage for one message *)
 Definition flushes (cfg : fatal_cfg) (ty : mtype) : bool :=
   mem_type ty (ff_types cfg) && cond_holds_sync (ff_cond cfg).
-Definition process_message (cfg : fatal_cfg) (pol : policy) (t : tree) (m : msg) : tree :=
+Definition process_message (cfg : fatal_cfg) (pol : policy) (rej : reject) (t : tree) (m : msg) : tree :=
   match ff_pos cfg with
-  | FNone => twrite cfg pol m true t
-  | FBefore => twrite cfg pol m true (if flushes cfg (fst m) then root_flush cfg t else t)
-  | FAfter => let t1 := twrite cfg pol m true t in if flushes cfg (fst m) then root_flush cfg t1 else t1
+  | FNone => twrite cfg pol rej m true t
+  | FBefore => twrite cfg pol rej m true (if flushes cfg (fst m) then root_flush cfg t else t)
+  | FAfter => let t1 := twrite cfg pol rej m true t in if flushes cfg (fst m) then root_flush cfg t1 else t1
   end.
-Definition log_all cfg pol (t : tree) (msgs : list msg) : tree :=
-  fold_left (process_message cfg pol) msgs t.
+Definition log_all cfg pol rej (t : tree) (msgs : list msg) : tree :=
+  fold_left (process_message cfg pol rej) msgs t.
 (* msgs, then qFatal(r); Qt calls abort() when the handler returns *)
-Definition run_fatal cfg pol (t : tree) (msgs : list msg) (r : rec) : tree :=
-  process_message cfg pol (log_all cfg pol t msgs) (Fatal, r).
+Definition run_fatal cfg pol rej (t : tree) (msgs : list msg) (r : rec) : tree :=
+  process_message cfg pol rej (log_all cfg pol rej t msgs) (Fatal, r).
 
 (* ---- the file sinks of a configuration, each with the filters in front of it ---- *)
 Definition gnext (pre : list flt) (t : tree) : list flt :=
@@ -139,10 +144,14 @@ Definition gsinks (t : tree) : list (sink * list flt) := gs [] t.
 (* abort()/SIGKILL: per file sink, what the file holds (None: the device keeps nothing) *)
 Definition survivors (t : tree) : list (option (list rec)) :=
   map (fun sg => if broken (fst sg) then None else Some (disk (fst sg))) (gsinks t).
-(* THE SPECIFICATION: previous content + every record that passed the filters in front of the sink *)
-Definition expected (t : tree) (msgs : list msg) : list (option (list rec)) :=
+(* THE SPECIFICATION: previous content + every record that passed the filters in front of the sink and
+   was written while its device accepted writes *)
+Definition reaches (rej : reject) (sg : sink * list flt) (m : msg) : bool :=
+  pass (snd sg) m && negb (rej (sid (fst sg)) (snd m)).
+Definition expected (rej : reject) (t : tree) (msgs : list msg) : list (option (list rec)) :=
   map (fun sg => if broken (fst sg) then None
-                 else Some (content (fst sg) ++ map snd (filter (pass (snd sg)) msgs))) (gsinks t).
+                 else Some (content (fst sg) ++ map snd (filter (reaches rej sg) msgs))) (gsinks t).
+Definition no_faults : reject := fun _ _ => false.
 
 Definition cfg_goodb (cfg : fatal_cfg) : bool :=
   match ff_pos cfg with FAfter => true | _ => false end
@@ -174,8 +183,8 @@ Fixpoint files_okb (e f : list (option (list N))) : bool :=
   end.
 Definition ids_of (l : list (option (list rec))) : list (option (list N)) := map (option_map (map rid)) l.
 (* every file holds exactly the records that reached its sink, in order *)
-Definition prop_c11_b (t : tree) (msgs : list msg) (r : rec) (files : list (option (list N))) : bool :=
-  files_okb (ids_of (expected t (msgs ++ [(Fatal, r)]))) files.
+Definition prop_c11_b (rej : reject) (t : tree) (msgs : list msg) (r : rec) (files : list (option (list N))) : bool :=
+  files_okb (ids_of (expected rej t (msgs ++ [(Fatal, r)]))) files.
 
 (* ---- helpers for the driver ---- *)
 Definition fresh (id : N) (pre : bool) (brk : bool) : sink :=
